@@ -106,7 +106,10 @@ def concatenate(signals, /, axis=0):
         for s in signals:
             if s.start_time is not None:
                 if ref_st is None:
-                    ref_st = s.start_time - (n / ref_sr)
+                    # No arithmetic for a zero offset: Time + 0 s is not exact
+                    # on UTC days with a leap second, and would drift when
+                    # concatenated results are concatenated again.
+                    ref_st = s.start_time - (n / ref_sr) if n else s.start_time
                 elif not Time.isclose(ref_st + (n / ref_sr), s.start_time):
                     raise ValueError("Signals not contiguous in time.")
             n += len(s)
